@@ -16,6 +16,10 @@ use std::cell::{Cell, RefCell};
 
 const SYS_CLOCK_GETTIME: i64 = 228;
 const SYS_GETRANDOM: i64 = 318;
+const SYS_FUTEX: i64 = 202;
+const SYS_SCHED_YIELD: i64 = 24;
+const SYS_NANOSLEEP: i64 = 35;
+const SYS_CLOCK_NANOSLEEP: i64 = 230;
 const CLOCK_REALTIME: i32 = 0;
 const CLOCK_MONOTONIC: i32 = 1;
 const CLOCK_MONOTONIC_RAW: i32 = 4;
@@ -237,7 +241,43 @@ pub unsafe extern "C" fn syscall(n: i64, a1: i64, a2: i64, a3: i64, a4: i64, a5:
     if n == SYS_GETRANDOM && a1 != 0 && serve_entropy(a1 as *mut u8, a2 as usize) {
         return a2;
     }
+    if n == SYS_FUTEX {
+        // a caller thread of a scheduled session about to sleep on a lock: that is a scheduling decision (kernel::conc)
+        if let Some(r) = crate::conc::futex_hook(a1, a2, a3) {
+            return fix_errno(r);
+        }
+    }
     fix_errno(raw_syscall6(n, a1, a2, a3, a4, a5, a6))
+}
+
+/// libc `sched_yield(2)` replacement: for a caller thread of a scheduled session a yield is a scheduling decision
+#[no_mangle]
+pub unsafe extern "C" fn sched_yield() -> i32 {
+    if crate::conc::is_participant() {
+        crate::conc::on_event(true);
+        return 0;
+    }
+    fix_errno(raw_syscall6(SYS_SCHED_YIELD, 0, 0, 0, 0, 0, 0)) as i32
+}
+/// libc `nanosleep(2)` / `clock_nanosleep(2)` replacements: a sleeping caller thread of a scheduled session gives the
+/// baton away instead of stalling the one thread that runs
+#[no_mangle]
+pub unsafe extern "C" fn nanosleep(req: *const Timespec, rem: *mut Timespec) -> i32 {
+    if crate::conc::is_participant() {
+        crate::conc::on_event(true);
+        return 0;
+    }
+    fix_errno(raw_syscall6(SYS_NANOSLEEP, req as i64, rem as i64, 0, 0, 0, 0)) as i32
+}
+#[no_mangle]
+pub unsafe extern "C" fn clock_nanosleep(clk: i32, flags: i32, req: *const Timespec, rem: *mut Timespec) -> i32 {
+    if crate::conc::is_participant() {
+        crate::conc::on_event(true);
+        return 0;
+    }
+    // returns the error number itself, not -1/errno
+    let r = raw_syscall6(SYS_CLOCK_NANOSLEEP, clk as i64, flags as i64, req as i64, rem as i64, 0, 0);
+    if r < 0 { (-r) as i32 } else { 0 }
 }
 
 /// libc `getrandom(3)` replacement (std's HashMap seeds come through here).
